@@ -2,7 +2,7 @@
 sibling agreement of the instruction walkers, batch-size provenance, no literal party indices."""
 from collections import defaultdict
 from mir import callee, callee_names
-from an import where, root_local, SliceInfo, defs_of
+from an import where, root_local, SliceInfo, defs_of, plain_value_origin
 from env import CTX, CIRC
 from chan import PRIMS
 from common import fl
@@ -268,6 +268,8 @@ def run(ctx, res):
                             res.bad("C01.b", inst, "flush condition is `len %s bound`, not `len >= bound`: chunks would not have exactly the batch size the reader expects" % op, where(b, bi, si_))
                         elif len(src) != 1:
                             res.bad("C01.b", inst, "flush bound mixes sources %s" % sorted(src), where(b, bi, si_))
+                        elif (lambda pc: pc[1] or len(pc[0]) != 1 or not list(pc[0])[0].startswith(CTX_M))(plain_value_origin(fg, k, y, b.owner)):
+                            res.bad("C01.b", inst, "the flush bound is computed from Context::%s() instead of being that value: the reader chunks by the batch size itself, so writer and reader (or the file and the memory variant of the buffer) disagree on the chunk boundaries" % list(src)[0], where(b, bi, si_))
                         elif private_reads(src):
                             res.bad("C01.b", inst, "the flush bound Context::%s() depends on %s, which is not the same at every party: writer and reader would chunk differently" % (list(src)[0], sorted(private_reads(src))), where(b, bi, si_))
                         else:
